@@ -1,23 +1,26 @@
-SPECIFICATION Spec
+SPECIFICATION GenSpec
 CONSTANTS
   Sessions = {"L1", "M1"}
   Legacy = {"L1"}
-  InitOn = {}
-  Kinds = {"resources", "templates"}
+  InitOn = {"L1", "M1"}
+  Kinds = {"tools"}
   NotifOf <- NotifStd
   Uris = {}
   Want <- WantAll
   CapOff = {}
   TTLPos = FALSE
-  D = 0
-  MaxTime = 0
+  D = 2
+  MaxTime = 8
   MaxChanges = 3
   MaxUpdates = 0
   MaxCalls = 0
   ModernUnsub = FALSE
-  Stepwise = FALSE
+  Stepwise = TRUE
   Gates = FALSE
   GateNames = {"inv", "usr", "put"}
-  ClientFirst = TRUE
-INVARIANTS TypeOK NeverLost OnlyEntitled NoneWhenDisabled UpdatedExactlySubscribers Fresh ForgottenOnClose MapsOnlySessions
+  ClientFirst = FALSE
+  MinSteps = 1
+  MaxSteps = 9
+  Bias = FALSE
+INVARIANTS Export NeverLost OnlyEntitled NoneWhenDisabled UpdatedExactlySubscribers Fresh ForgottenOnClose
 CHECK_DEADLOCK FALSE
